@@ -206,6 +206,12 @@ class ModelDriver:
             else:
                 self.models[t] = pickle.loads(pickle.dumps(model))
             return None
+        if a == "Merge":
+            right = self.models.get(op["t"])
+            if right is None or op["t"] == s:
+                raise Skip("no second model")
+            model.merge(right, inplace=True, objective="left")
+            return None
         if a == "AddMetabolites":
             ms = [self.new_met(m) for m in op["ms"]]
             model.add_metabolites(ms if len(ms) > 1 else ms[0])
@@ -288,6 +294,25 @@ class ModelDriver:
         if a == "SetBounds":
             self.get_rxn(model, op["r"]).bounds = (self.to_bound(op["lo"]), self.to_bound(op["hi"]))
             return None
+        if a == "RxnArith":
+            rxn = self.get_rxn(model, op["r"])
+            q = self.get_rxn(model, op["q"])
+            kind = op["kind"]
+            res = rxn.copy() if kind == "copy" else (rxn + q if kind == "add" else (rxn - q if kind == "sub" else rxn * op["k"]))
+            inexact = []
+            n = len(GENE)
+            subsets = [{self.gene[GENE[i]] for i in range(n) if (k >> i) & 1} for k in range(2 ** n)]
+            S = {m: 0 for m in MET}
+            for mo, k in res.metabolites.items():
+                if mo.id in self.rmet:
+                    S[self.rmet[mo.id]] = self.num(k, 1.0, "ar", inexact)
+            shared = any(mo.model is not None or any(mo is x for x in model.metabolites) for mo in res.metabolites) \
+                or any(g.model is not None or any(g is x for x in model.genes) for g in res.genes)
+            return {"ar": {"S": S, "lb": self.num(res.lower_bound, self.scale, "ar", inexact),
+                           "ub": self.num(res.upper_bound, self.scale, "ar", inexact),
+                           "tt": [1 if res.gpr.eval(ks) else 0 for ks in subsets],
+                           "genes": sorted(self.rgene.get(g.id, "?" + g.id) for g in res.genes),
+                           "detached": bool(res.model is None and res is not rxn and not shared and not inexact)}}
         if a == "DetachedSetBounds":
             robj = self.detached[s].get(op["r"])
             if robj is None or self.rx[op["r"]] in model.reactions or robj.model is not None:
@@ -682,7 +707,7 @@ class ModelDriver:
             nm = glp_get_row_name(prob, i)
             am = self.rmet.get(nm)
             if am is None or nm not in model.metabolites:
-                xrows.append(nm)
+                xrows.append(am if am is not None else nm)      # a row named like a metabolite that is not in the model
                 continue
             l, u = bounds(glp_get_row_type(prob, i), glp_get_row_lb(prob, i), glp_get_row_ub(prob, i))
             row = rows[am]
@@ -751,7 +776,9 @@ class ModelDriver:
                 ev = {"op": op, "raises": raises,
                       "ret": {"ids": (ret or {}).get("ids", []), "n": (ret or {}).get("n", 0),
                               "med": (ret or {}).get("med", {r: MISSING for r in RX}),
-                              "x": (ret or {}).get("x", []), "x2": (ret or {}).get("x2", [])},
+                              "x": (ret or {}).get("x", []), "x2": (ret or {}).get("x2", []),
+                              "ar": (ret or {}).get("ar", {"S": {m: 0 for m in MET}, "lb": 0, "ub": 0, "tt": [], "genes": [],
+                                                           "detached": True})},
                       "hooks": list(hooks)[:400], "hooks_on": hooks_on,
                       "obs": [self.project(self.models[1]), self.project(self.models[2])]}
                 events.append(ev)
